@@ -271,13 +271,22 @@ def check_sampled(case, acc):
     import tangelo.linq.target.backend as BK
     word, n, shots, bname = case["word"], case["n"], case["n_shots"], case.get("backend", "cirq")
     c = mk_circ(word, n)
-    psi = SV.run(word, n)
+    init = None
+    if case.get("init") == "sparse":
+        # user-supplied initial statevector (in the advertised order) together with shots: (|0..01> + i|1..10>)/sqrt2
+        init = np.zeros(2 ** n, dtype=complex)
+        init[1], init[2 ** n - 2] = 1 / np.sqrt(2), 1j / np.sqrt(2)
+    psi = SV.run(word, n, init)
     f_ref = {k: v for k, v in SV.freqs(psi, n).items() if v >= 1e-10}
+    order = get_backend(bname).backend_info()["statevector_order"]
+    init_be = None if init is None else SV.to_order(init, n, order)
 
     def run(ch):
         be = get_backend(bname, n_shots=shots)
         with seams.patched(BK, "stats", seams.StatsProxy(ch)):
-            fr, _ = be.simulate(c)
+            fr, sv = be.simulate(c, initial_statevector=init_be, return_statevector=bool(case.get("want_sv")))
+        if case.get("want_sv") and SV.dist_up_to_phase(SV.from_order(np.asarray(sv), n, order), psi) > TOL:
+            return {"statevector-wrong-in-sampled-mode": 1.0}
         return {k: float(v) for k, v in fr.items()}
 
     n_exec = 0
@@ -393,6 +402,9 @@ def run_shard(sh):
             acc.transitions += 1
             check_cirq(case, acc)
     elif k == "d2r":
+        if sh.get("thin") and sh["first"] == 0:
+            acc.caps.append("quick tier: depth-2 words on the sympy backend for 3 qubits cover every 2nd first gate x every 3rd second gate of "
+                            "the reduced alphabet (thorough: all pairs); cirq covers all depth-2 words over Sigma_3")
         R = reduced(sh["n"], A[1:3])
         g1 = R[sh["first"]]
         for j, g2 in enumerate(R):
@@ -433,6 +445,12 @@ def run_shard(sh):
             for shots in (1, 2):
                 acc.states += 1
                 check_sampled({"kind": "sampled", "word": w, "n": n, "n_shots": shots, "backend": "cirq"}, acc)
+            if n >= 2 and len(w) <= 2:
+                supp2 = int(np.sum(np.abs(SV.run(w, n, np.eye(2 ** n)[1] + np.eye(2 ** n)[2 ** n - 2])) ** 2 > 1e-10))
+                if supp2 <= 4:
+                    acc.states += 1
+                    check_sampled({"kind": "sampled", "word": w, "n": n, "n_shots": 2, "backend": "cirq", "init": "sparse",
+                                   "want_sv": True}, acc)
         # (the sympy backend ignores n_shots and returns exact frequencies: no sampled mode to explore there)
         acc.sample({"kind": "sampled", "word": [al[0], al[2]], "n": 2, "n_shots": 2})
     return acc
